@@ -282,6 +282,83 @@ func c12Eval(cs c12Case) (fails [][2]string, excluded, skipped bool, depth int) 
 	return fails, false, false, depth
 }
 
+// c12EvalReuse evaluates a SEQUENCE of input vectors on ONE instance per solver entry
+// point without flushing in between: in a feed-forward network, propagating for at least
+// the longest path overwrites every neuron, so each result must again be the function of
+// the vector just loaded.
+func c12EvalReuse(cs c12Case, inputs [][]float64) (fails [][2]string, done bool) {
+	g, _ := cs.spec()
+	if len(g.Genes) == 0 {
+		return nil, false
+	}
+	var wants [][]float64
+	depth := 0
+	for _, in := range inputs {
+		c1 := cs
+		c1.Input = in
+		w, d, ok, skip := c12Reference(c1, g)
+		if !ok || skip {
+			return nil, false
+		}
+		wants = append(wants, w)
+		depth = d
+	}
+	gen := g.Build()
+	for si, name := range c12Solvers {
+		err := func() (err error) {
+			defer func() {
+				if r := recover(); r != nil {
+					err = fmt.Errorf("panic: %v", r)
+				}
+			}()
+			net, err := gen.Genesis(1)
+			if err != nil {
+				return err
+			}
+			var solver network.Solver = net
+			if si >= 3 {
+				if solver, err = net.FastNetworkSolver(); err != nil {
+					return err
+				}
+			}
+			for k, in := range inputs {
+				if err = solver.LoadSensors(in); err != nil {
+					return err
+				}
+				switch si {
+				case 0, 3:
+					_, err = solver.ForwardSteps(depth)
+				case 1, 4:
+					_, err = solver.ForwardSteps(depth + 2)
+				case 2, 5:
+					_, err = solver.RecursiveSteps()
+				case 6:
+					_, err = solver.Relax(depth+3, 5e-324)
+				}
+				if err != nil {
+					return err
+				}
+				got := solver.ReadOutputs()
+				for i := range wants[k] {
+					if i >= len(got) || (!relClose(got[i], wants[k][i], 1e-11) && math.Abs(got[i]-wants[k][i]) > 1e-13) {
+						gv := math.NaN()
+						if i < len(got) {
+							gv = got[i]
+						}
+						fails = append(fails, [2]string{name + "/reuse-value", fmt.Sprintf("%s on a reused instance (no flush): after loading vector #%d %v output %d = %.17g, topological evaluation gives %.17g (sequence %v)", name, k, in, i, gv, wants[k][i], inputs)})
+						return nil
+					}
+				}
+			}
+			return nil
+		}()
+		if err != nil {
+			fails = append(fails, [2]string{name + "/reuse-error", fmt.Sprintf("%s failed on a reused instance: %v", name, err)})
+		}
+	}
+	return fails, true
+}
+
 func (cs c12Case) describe() string {
 	g, _ := cs.spec()
 	return fmt.Sprintf("shape(bias=%d in=%d hidden=%d out=%d) %s acts=%v input=%v", cs.Shape.NB, cs.Shape.NI, cs.Shape.NH, cs.Shape.NO, g.Short(), func() []int {
@@ -329,7 +406,8 @@ func seqInts(n int) []int {
 func runC12(c *Ctx) {
 	allActs := seqInts(len(c12AllActs) + 3)
 	fewActs := []int{3, 13, 10, 4, 19, 17, 20, 21, 22} // steepened sigmoid, linear, tanh, approx sigmoid, step, sign, 3 mixed
-	plans := []c12Plan{{c12Shape{1, 1, 2, 1}, []int{0, 1, 2, 3}, allActs, c12Inputs(1, true)}}
+	plans := []c12Plan{{c12Shape{1, 1, 2, 1}, []int{0, 1, 2, 3}, allActs, c12Inputs(1, true)},
+		{c12Shape{2, 1, 1, 1}, []int{0, 1}, fewActs, c12Inputs(1, true)}}
 	if !c.Quick() {
 		plans = append(plans,
 			c12Plan{c12Shape{0, 1, 2, 1}, []int{0, 1, 2, 3}, allActs, c12Inputs(1, true)},
@@ -345,7 +423,7 @@ func runC12(c *Ctx) {
 	for _, p := range plans {
 		desc += fmt.Sprintf("(bias=%d,in=%d,hidden=%d,out=%d: 2^%d edge sets x %d weight rotations x %d activation patterns x %d inputs) ", p.shape.NB, p.shape.NI, p.shape.NH, p.shape.NO, len(p.shape.edges()), len(p.wrots), len(p.acts), len(p.inputs))
 	}
-	c.Rule = "all feed-forward edge sets over the listed node sets in which every neuron is reachable from a sensor: " + desc + "x 7 solver entry points on fresh instances vs Kahn-order evaluation (1e-11 relative); weights from {0.5,-1.5,0.25,2} by rotation; non-trivial = distinct (shape, edge set) with all neurons reachable"
+	c.Rule = "all feed-forward edge sets over the listed node sets in which every neuron is reachable from a sensor: " + desc + "x 7 solver entry points on fresh instances, and a sequence of 4 input vectors on one reused instance per entry point without flush, vs Kahn-order evaluation (1e-11 relative); weights from {0.5,-1.5,0.25,2} by rotation; non-trivial = distinct (shape, edge set) with all neurons reachable"
 	type job struct {
 		pi     int
 		lo, hi uint64
@@ -375,6 +453,20 @@ func runC12(c *Ctx) {
 			counted := false
 			for _, wr := range p.wrots {
 				for _, ap := range p.acts {
+					if seq := p.inputs; len(seq) >= 3 {
+						cs := c12Case{p.shape, mask, wr, ap, nil}
+						rf, done := c12EvalReuse(cs, [][]float64{seq[len(seq)-1], seq[1], seq[0], seq[2]})
+						if done {
+							evals += int64(len(c12Solvers) * 4)
+							c.Count("reuse_sequences_evaluated", 1)
+						}
+						for _, f := range rf {
+							ord := int64(bitsSet(mask))<<40 | int64(j.pi)<<32 | int64(mask)
+							cs.Input = seq[0]
+							c.ViolateOrd("C12/"+f[0], ord, f[1]+" for "+cs.describe(), &Replay{Scenario: "net", Params: map[string]interface{}{
+								"nb": p.shape.NB, "ni": p.shape.NI, "nh": p.shape.NH, "no": p.shape.NO, "mask": mask, "wrot": wr, "act": ap, "input": seq[0], "reuse": true}})
+						}
+					}
 					for _, in := range p.inputs {
 						cs := c12Case{p.shape, mask, wr, ap, in}
 						fails, excluded, skipped, d := c12Eval(cs)
@@ -438,6 +530,14 @@ func replayC12(c *Ctx, rp *Replay) (bool, string) {
 		for _, v := range raw {
 			cs.Input = append(cs.Input, v.(float64))
 		}
+	}
+	if b, _ := rp.Params["reuse"].(bool); b {
+		seq := c12Inputs(cs.Shape.NI, true)
+		rf, _ := c12EvalReuse(cs, [][]float64{seq[len(seq)-1], seq[1], seq[0], seq[2]})
+		if len(rf) > 0 {
+			return true, rf[0][1] + " for " + cs.describe()
+		}
+		return false, cs.describe()
 	}
 	fails, excluded, skipped, _ := c12Eval(cs)
 	if excluded || skipped {
